@@ -321,6 +321,7 @@ fn bank_strategy(role: usize) -> impl Strategy<Value = BankSpec> {
                 asset_tag: 0,
                 op_state: 1,
                 permissionless_bad_debt: permless && role == T,
+                staked: None,
             }
         })
 }
